@@ -7,7 +7,8 @@ export GOFLAGS=-mod=mod GOPROXY=off GOSUMDB=off GOTOOLCHAIN=local
 mkdir -p $DEST
 cp $OUT/patch_$I.diff $DEST/patch.diff; cp $OUT/demo_${I}_test.go $DEST/demo_test.go; cp $OUT/meta_$I.json $DEST/meta_agent.json
 PLACE=$(head -1 $DEST/demo_test.go | sed -n 's/.*place at \([^; ]*\).*/\1/p')
-RUNCMD=$(head -1 $DEST/demo_test.go | sed -n 's/.*run: \(.*\)$/\1/p')
+RUNCMD=$(head -1 $DEST/demo_test.go | grep -o 'go test [^(;]*')
+[ -n "$RUNCMD" ] || { echo "NO RUN COMMAND in demo header"; exit 3; }
 cd $WT && git checkout -q -- . && git clean -fdq
 R="{}"
 git apply $DEST/patch.diff || { echo "PATCH DOES NOT APPLY"; exit 3; }
